@@ -317,6 +317,33 @@ func legC14Interleave(c *Ctx) {
 		}
 		c.Add(cs)
 	}
+	// MatchTimeout is a public field read at every call: a Regexp first used without a timeout honours one set later
+	// (and the other way round), whatever runner the pool hands back
+	{
+		re := regexp2.MustCompile(`(a+)+$`)
+		cs := &Case{Desc: "MatchTimeout changed between calls on one Regexp (untimed quick match, then 20 ms on a catastrophic input, then back to no timeout)", Nontrivial: true, Key: "timeout-field", Class: "timeout-field"}
+		for round := 0; round < 3 && cs.Direct == ""; round++ {
+			re.MatchTimeout = regexp2.DefaultMatchTimeout
+			if ok, err := re.MatchString("aaaa"); err != nil || !ok {
+				cs.Direct = fmt.Sprintf("untimed quick match: %v %v", ok, err)
+			}
+			re.MatchTimeout = 20 * time.Millisecond
+			c14TakeStall()
+			t0 := time.Now()
+			_, err := re.MatchString(strings.Repeat("a", 40) + "b")
+			el := time.Since(t0)
+			if err == nil {
+				cs.Direct = fmt.Sprintf("round %d: after an untimed call, MatchTimeout=20ms was ignored: the catastrophic match ran to completion in %v", round, el.Round(time.Millisecond))
+			} else if el > 20*time.Millisecond+60*time.Millisecond+time.Duration(c14TakeStall()) {
+				cs.Direct = fmt.Sprintf("round %d: timeout reported after %v (timeout 20 ms)", round, el.Round(time.Millisecond))
+			}
+			re.MatchTimeout = regexp2.DefaultMatchTimeout
+			if ok, err := re.MatchString("aaaa"); (err != nil || !ok) && cs.Direct == "" {
+				cs.Direct = fmt.Sprintf("round %d: back to no timeout, a quick match reports: %v %v", round, ok, err)
+			}
+		}
+		c.Add(cs)
+	}
 	c.Gate("continuation scans ran", conts >= 10)
 	c.Gate("interleaving scenarios ran", ran >= 16)
 }
